@@ -7,6 +7,7 @@ CONSTANTS
   MaxFaults = 3
   K = 3
   MaxRounds = 6
+  MaxRematch = 0
   GenK = 20
 VIEW View
 INVARIANT Inv_Converge
